@@ -137,18 +137,18 @@ func (t *Tap) Now() time.Duration { return time.Since(t.start) }
 
 // Req records one HTTP exchange as seen by the wrapping handler.
 type Req struct {
-	ID           int64
-	Method       string
-	URL          string
-	Sid          string
-	EnterSeq     int64
-	ReturnSeq    int64 // 0 while the handler has not returned
-	WriteHeaders int
-	Writes       int
-	Status       int
-	Header       http.Header
-	Body         []byte
-	Hijacked     bool
+	ID            int64
+	Method        string
+	URL           string
+	Sid           string
+	EnterSeq      int64
+	ReturnSeq     int64 // 0 while the handler has not returned
+	WriteHeaders  int
+	Writes        int
+	Status        int
+	Header        http.Header
+	Body          []byte
+	Hijacked      bool
 	FirstWriteSeq int64
 	// WritesAfterReturn counts WriteHeader/Write calls made after the handler had returned
 	WritesAfterReturn int
@@ -236,12 +236,12 @@ type World struct {
 	L    *fakenet.Listener
 	Gate *Gate
 
-	Sockets   map[string]engine.Socket
-	SockOrder []string
-	Reqs      []*Req
-	reqID     atomic.Int64
-	ErrLog    bytes.Buffer
-	errMu     sync.Mutex
+	Sockets     map[string]engine.Socket
+	SockOrder   []string
+	Reqs        []*Req
+	reqID       atomic.Int64
+	ErrLog      bytes.Buffer
+	errMu       sync.Mutex
 	DefaultHits atomic.Int64
 
 	// HoldHeader, if set (SetHoldHeader), is asked on every WriteHeader; a non-nil channel keeps
